@@ -23,7 +23,7 @@ package proxy
 //@   props C07
 //@   requires pointers: ifaceVar != nil && gen != nil
 //@   assigns (*hack.Iface)(gen).Tab, (*hack.Iface)(gen).Data
-//@   ensures variable_holds_fake: (*hack.Iface)(gen).Tab == ifaceVar.Tab && (*hack.Iface)(gen).Data == ifaceVar.Data
+//@   ensures variable_holds_fake: (*hack.Iface)(gen).Tab == old(ifaceVar.Tab) && (*hack.Iface)(gen).Data == old(ifaceVar.Data)
 
 // proxy.Interface: every check precedes the first write; the first mock of a variable builds a fresh
 // method table (all other slots panic), later mocks of the same variable update one slot and leave
@@ -88,3 +88,24 @@ package proxy
 //@   ensures lock_state: !patch.locked()
 //@   panics_only_if rejected: true
 //@   ensures_on_panic nothing_left_diverted: patch.panic_frame() && patch.table_inv() && !patch.locked()
+
+// proxy.Interface: every check precedes the first write; then the variable's two words are backed up (first mock only),
+// a stub for the callback is generated (and its func value anchored in the context, C07 retention) and the variable
+// is overwritten with the fabricated interface value whose data word is the context.
+//@ pure func var_of(ifaceVar interface{}) *hack.Iface = (*hack.Iface)(hack.eface_data(ifaceVar))
+//@ func Interface
+//@   props C07 C13
+//@   safety nonil
+//@   requires context: ctx != nil && ctx.p != nil && ctx.p.ifaceCache != nil && imp != nil && ifaceVar != nil && 0 <= len(ctx.p.retained) && len(ctx.p.retained) < 0x10000
+//@   requires holder: stub.holder_wf()
+//@   requires cached_fakes_are_complete: forall k string :: has(ctx.p.ifaceCache, k) ==> ctx.p.ifaceCache[k] != nil && ctx.p.ifaceCache[k].Tab != nil
+//@   assume reflect_model_fact: rt_kind(rt_of(typeof(imp))) == reflect.Func
+//@   assume method_table_capacity: rt_kind(rt_of(typeof(ifaceVar))) == reflect.Ptr ==> rt_nummethod(rt_elem(rt_of(typeof(ifaceVar)))) < 999
+//@   assigns everything
+//@   ensures rejected_before_any_write: result != nil ==> var_of(ifaceVar).Tab == old(var_of(ifaceVar).Tab) && var_of(ifaceVar).Data == old(var_of(ifaceVar).Data) && forall a uintptr :: textmem[a] == old(textmem[a])
+//@   ensures non_pointer_or_non_interface_rejected: rt_kind(rt_of(typeof(ifaceVar))) != reflect.Ptr || rt_kind(rt_elem(rt_of(typeof(ifaceVar)))) != reflect.Interface ==> result != nil
+//@   ensures variable_is_not_nil: result == nil ==> var_of(ifaceVar).Tab != nil
+//@   ensures receiver_word_is_the_context: result == nil ==> var_of(ifaceVar).Data == ctx
+//@   ensures original_value_backed_up_once: result == nil ==> ctx.p.originIfaceValue != nil && (old(ctx.p.originIfaceValue) != nil ==> ctx.p.originIfaceValue == old(ctx.p.originIfaceValue))
+//@   ensures callback_anchored: result == nil ==> len(ctx.p.retained) == old(len(ctx.p.retained)) + 1
+//@   panics_only_if stub_or_reflect_failure: true
